@@ -1,7 +1,9 @@
 """C17 — CEA-608 word decoding.  Theorems: coq/Properties/C17.v (finite domain, in-kernel).  Ties: the enum
 tables are regenerated from the source (Gen/SccTables.v), and the hand model of the lookup logic is
 compared with SccWord on all 65 536 values inside Coq; S (Spec/Cea608Words.v) is evaluated on the
-implementation's own output for every word."""
+implementation's own output for every word.  Second tie: harness/pytrans_scc.py regenerates Gen/SccWordSrc.v from the
+current scc/word.py (fail-closed) and Proofs/C17/SrcRefines.v decides in the kernel that it equals the hand model on
+all 65 536 values (the calls into scc/codes/*.py are hand-written externs, Model/SccWordExt.v)."""
 import sys, os, re
 import common as C
 import gen_tables
@@ -63,9 +65,28 @@ def main():
         run.violation("table translator failed closed: " + "; ".join(errors), dict(kind="translator", errors=errors), False)
         return run.finish()
     if changed: run.log("tables regenerated from source:", changed)
+    # tie by translation: regenerate Gen/SccWordSrc.v from the current scc/word.py (fail-closed)
+    changed2, trans_errors = gen_tables.generate({"SccWordSrc"})
+    if ("Gen/SccWordSrc.v" in open(C.COQ + "/_CoqProject").read()) != (not trans_errors):
+        with C.Lock(): C.sh(["sh", C.VERIF + "/tools/mkproject.sh"], 60)
+    if trans_errors:
+        run.violation("translator harness/pytrans_scc.py failed closed on ttconv/scc/word.py (construct outside the translated subset, or a "
+                      "changed signature): " + "; ".join(trans_errors),
+                      dict(kind="translator", translator="harness/pytrans_scc.py", source="ttconv/scc/word.py", errors=trans_errors), found_input=False)
     ok, log = run.build(["Proofs/C17/Decode.vo", "Model/SccWordCases.vo"], clean=(run.tier == "thorough"))
-    proofs_ok = ok and run.theorems()
+    ok_src, log_src = (False, "")
+    if not trans_errors: ok_src, log_src = run.build(["Proofs/C17/SrcRefines.vo"], clean=(run.tier == "thorough"))
+    thm_ok = run.theorems()
+    proofs_ok = ok and ok_src and thm_ok
     if not ok: run.proof_log = log[-2500:]
+    elif not ok_src and not trans_errors: run.proof_log = "refinement coq/Proofs/C17/SrcRefines.v (model regenerated from scc/word.py = Model/SccWord.v) no longer compiles: " + log_src[-1500:]
+    run.cov["source_tie"] = dict(
+        translator="harness/pytrans_scc.py -> coq/Gen/SccWordSrc.v (regenerated on this run)" if not trans_errors else "FAILED: " + "; ".join(trans_errors),
+        refinement_compiles=bool(ok_src),
+        tied_by_translation_and_refinement_theorem=["SccWord.__init__", "_decipher_parity_bit", "from_value", "from_bytes", "is_code", "_find_code (lookup order)",
+                                                    "get_channel (dispatch)", "to_text"] if ok_src else [],
+        tied_by_differential_runs_only=["scc/codes/*.py: SccCode.find / contains_value / get_channel, SccPreambleAddressCode (externs of Model/SccWordExt.v = "
+                                        "the look-ups of Model/SccWord.v over the regenerated tables)", "SccWord.from_str / _is_hex_word (text parsing)", "disassembly"])
     run.witnesses()
 
     # ---- implementation on all 65 536 words ---------------------------------------------------------
@@ -135,9 +156,9 @@ def main():
                       dict(kind="S-on-code", spec="coq/Spec/Cea608Words.v spec_ok", first=describe(s_bad[0]), others=[describe(w) for w in s_bad[1:20]], count=len(s_bad)))
     if dis_fail:
         run.violation(f"disassembly: {dis_fail[0]}", dict(kind="S-on-code", clause="disassembly renders every word", failures=[str(x) for x in dis_fail[:20]]))
-    if (m_bad or broken or not proofs_ok) and not (s_bad or dis_fail):
+    if (m_bad or broken or not proofs_ok) and not (s_bad or dis_fail) and not (trans_errors and ok and not m_bad and not broken):
         what = []
-        if not proofs_ok: what.append("theorems of coq/Properties/C17.v no longer check: " + getattr(run, "proof_log", "")[-500:])
+        if not proofs_ok and not (trans_errors and ok): what.append("theorems of coq/Properties/C17.v no longer check: " + getattr(run, "proof_log", "")[-700:])
         if m_bad: what.append(f"correspondence Model/SccWord.v vs scc/word.py disagrees on {len(m_bad)} words, first {m_bad[0]:#06x}")
         if broken: what.append(f"case files did not evaluate: {broken[0]}")
         run.violation("; ".join(what), dict(kind="broken-tie", theorem_file="coq/Properties/C17.v", proofs_ok=proofs_ok,
@@ -152,9 +173,23 @@ def main():
                    samples=[describe(0x9420), describe(0x1370), describe(0x4c6f)],
                    class_histogram={str(k): sum(1 for r in rows if r[0] == k) for k in range(9)},
                    model_code_mismatches=len(m_bad), s_failures_on_code=len(s_bad), lines_checked=n_lines)
-    run.assumptions += ["S (Spec/Cea608Words.v) is a reading of CTA-608-E tables 50-53; for glyph-only characters and for 'green' it accepts a set of code points / RGB values",
+    # `a or b` over Optional code objects in _find_code is translated as "first that is not None": code objects must be truthy
+    from ttconv.scc.codes.control_codes import SccControlCode as _K1
+    from ttconv.scc.codes.attribute_codes import SccAttributeCode as _K2
+    from ttconv.scc.codes.mid_row_codes import SccMidRowCode as _K3
+    from ttconv.scc.codes.special_characters import SccSpecialCharacter as _K4
+    from ttconv.scc.codes.extended_characters import SccExtendedCharacter as _K5
+    from ttconv.scc.codes.preambles_address_codes import SccPreambleAddressCode as _K6
+    falsy = [str(m) for k in (_K1, _K2, _K3, _K4, _K5) for m in k if not m] + ([] if _K6(0x11, 0x40) else ["SccPreambleAddressCode"])
+    if falsy:
+        run.violation("a code object is falsy, so `x.find(v) or ...` in SccWord._find_code skips it; the translation of `or` in "
+                      "harness/pytrans_scc.py is not valid: " + ", ".join(falsy[:5]), dict(kind="translator-assumption", falsy=falsy), found_input=False)
+    run.assumptions += ["Gen/SccWordSrc.v: `a or b` over Optional code objects means first-not-None (code objects are truthy: checked on every run); "
+                        "to_bytes OverflowError for negative values and the codes/*.py externs are not translated",
+                        "S (Spec/Cea608Words.v) is a reading of CTA-608-E tables 50-53; for glyph-only characters and for 'green' it accepts a set of code points / RGB values",
                         "the harness maps Python objects to the 11-integer decoded view (harness/c17.py impl_row)"]
-    return run.finish(["harness/gen_tables.py (table translator, fail-closed)"])
+    return run.finish(["harness/gen_tables.py (table translator, fail-closed)",
+                       "harness/pytrans.py + pytrans_scc.py (fail-closed ast -> Gallina translator), coq/Base/PyNum.v, coq/Model/SccWordExt.v (externs)"])
 
 
 if __name__ == "__main__":
